@@ -14,10 +14,12 @@ package main
 import (
 	"encoding/json"
 	"fmt"
+	"math"
 	"os"
 	"path/filepath"
 	"regexp"
 	"sort"
+	"strconv"
 	"strings"
 	"sync"
 
@@ -343,7 +345,28 @@ func (g *c19SessGen) addDef() {
 		}
 		return ""
 	}
-	switch r.Intn(12) {
+	switch r.Intn(14) {
+	case 12, 13:
+		// a variable holding a generated nested value (the generator of leg A)
+		if g.listed("defvar/list") || g.listed("defvar/vector") || g.listed("defvar/hash-table") || g.listed("defvar/array-2d") {
+			return
+		}
+		name := g.name("v")
+		for tries := 0; tries < 20; tries++ {
+			v := c19RandVal(r, 1+r.Intn(3), c19GenCtx{avoid: func(container, elem string) bool {
+				// literal data only below the top level
+				return elem == "vector" || elem == "array" || elem == "hash-table"
+			}, noEmptyVec: true})
+			if v.depth() == 0 {
+				continue
+			}
+			src, probes, ok := v.expr(name)
+			if !ok {
+				continue
+			}
+			g.defs = append(g.defs, c19Def{Kind: "defvar", Name: name, Forms: []string{fmt.Sprintf("(defvar %s %s)", name, src)}, Probes: probes})
+			return
+		}
 	case 0, 1:
 		name := g.name("v")
 		expr, isInt := g.dataExpr()
@@ -497,6 +520,131 @@ func (g *c19SessGen) addDef() {
 	}
 }
 
+// ---------------------------------------------------------------------------------------------
+// generated values (leg A's generator) as the values of session variables
+
+func c19LispString(s string) string {
+	return "\"" + strings.NewReplacer("\\", "\\\\", "\"", "\\\"").Replace(s) + "\""
+}
+
+// lit: the text of the value inside a quoted literal; ok=false when it has no literal text
+func (v *c19Val) lit() (string, bool) {
+	switch v.K {
+	case "nil":
+		return "nil", true
+	case "t":
+		return "t", true
+	case "int":
+		return v.N, true
+	case "ratio":
+		return v.N + "/" + v.D, true
+	case "dbl":
+		f := math.Float64frombits(v.Bits)
+		if a := math.Abs(f); f == 0 || (a >= 1e-3 && a < 1e6) {
+			t := strconv.FormatFloat(f, 'f', -1, 64)
+			if !strings.Contains(t, ".") {
+				t += ".0"
+			}
+			return t, true
+		}
+		return "", false
+	case "str":
+		return c19LispString(v.S), !strings.ContainsAny(v.S, "\n\t")
+	case "chr":
+		if v.C < 128 && (v.C >= 'a' && v.C <= 'z' || v.C >= '0' && v.C <= '9' || v.C >= 'A' && v.C <= 'Z') {
+			return "#\\" + string(rune(v.C)), true
+		}
+		return "", false
+	case "sym":
+		for _, ok := range []string{"a", "b", "foo", "bar-baz", "x1", "quux", ":a", ":key", ":b2"} {
+			if v.S == ok {
+				return v.S, true
+			}
+		}
+		return "", false
+	case "list":
+		parts := make([]string, 0, len(v.Kids)+2)
+		for _, k := range v.Kids {
+			t, ok := k.lit()
+			if !ok {
+				return "", false
+			}
+			parts = append(parts, t)
+		}
+		if v.Tail != nil {
+			t, ok := v.Tail.lit()
+			if !ok {
+				return "", false
+			}
+			parts = append(parts, ".", t)
+		}
+		return "(" + strings.Join(parts, " ") + ")", true
+	}
+	return "", false
+}
+
+// expr: an expression that builds the value, and probes of a variable holding it
+func (v *c19Val) expr(name string) (src string, probes []string, ok bool) {
+	q := func(k *c19Val) (string, bool) {
+		t, ok := k.lit()
+		if ok && (k.K == "list" || (k.K == "sym" && !strings.HasPrefix(k.S, ":"))) {
+			t = "'" + t
+		}
+		return t, ok
+	}
+	switch v.K {
+	case "vec":
+		parts := []string{"(vector"}
+		for _, k := range v.Kids {
+			t, ok := q(k)
+			if !ok {
+				return "", nil, false
+			}
+			parts = append(parts, t)
+		}
+		return strings.Join(parts, " ") + ")", []string{name, fmt.Sprintf("(length %s)", name)}, true
+	case "arr":
+		rows := &c19Val{K: "list"}
+		var nest func(elems []*c19Val, dims []int) *c19Val
+		nest = func(elems []*c19Val, dims []int) *c19Val {
+			if len(dims) == 1 {
+				return &c19Val{K: "list", Kids: elems}
+			}
+			size := len(elems) / dims[0]
+			out := &c19Val{K: "list"}
+			for i := 0; i < dims[0]; i++ {
+				out.Kids = append(out.Kids, nest(elems[i*size:(i+1)*size], dims[1:]))
+			}
+			return out
+		}
+		rows = nest(v.Kids, v.Dims)
+		t, ok := rows.lit()
+		if !ok {
+			return "", nil, false
+		}
+		dims := make([]string, len(v.Dims))
+		for i, d := range v.Dims {
+			dims[i] = fmt.Sprint(d)
+		}
+		return fmt.Sprintf("(make-array '(%s) :initial-contents '%s)", strings.Join(dims, " "), t), []string{name, fmt.Sprintf("(array-dimensions %s)", name)}, true
+	case "hash":
+		src = "(let ((h (make-hash-table)))"
+		probes = []string{fmt.Sprintf("(hash-table-count %s)", name)}
+		for i := 0; i+1 < len(v.Kids); i += 2 {
+			kt, ok1 := q(v.Kids[i])
+			vt, ok2 := q(v.Kids[i+1])
+			if !ok1 || !ok2 {
+				return "", nil, false
+			}
+			src += fmt.Sprintf(" (setf (gethash %s h) %s)", kt, vt)
+			probes = append(probes, fmt.Sprintf("(gethash %s %s)", kt, name))
+		}
+		return src + " h)", probes, true
+	}
+	t, ok := q(v)
+	return t, []string{name}, ok
+}
+
 // c19Pick: k distinct indices below n
 func c19Pick(r *lib.Rng, n, k int) []int {
 	idx := make([]int, n)
@@ -518,6 +666,12 @@ func c19RandSession(r *lib.Rng, listed func(string) bool) c19Session {
 	n := 3 + r.Intn(10)
 	for tries := 0; len(g.defs) < n && tries < 100; tries++ {
 		g.addDef()
+	}
+	if r.Chance(25) {
+		// the snapshot is written with the session's right margin
+		m := []int{40, 60, 80, 100}[r.Intn(4)]
+		g.defs = append([]c19Def{{Kind: "setq", Name: "*print-right-margin*", Forms: []string{fmt.Sprintf("(setq *print-right-margin* %d)", m)},
+			Probes: []string{"*print-right-margin*"}}}, g.defs...)
 	}
 	// documentation is part of the restored world
 	for i := range g.defs {
